@@ -54,6 +54,17 @@ def plan(tier, seed):
             files = {"app.py": b64(src.encode())}; files.update({k: b64(v) for k, v in mf.items()})
             jobs.append({"id": f"manifest:{mk}:{cid}", "cid": cid, "labels": {"app.py": ("module", "plain", "lf"), **{k: ("manifest", mk, "") for k in mf}}, "files": files,
                          "argv": ["{proj}", "--output", "{out}", "--codemod-include", cid], "monitors": {"snap": True}})
+    # heterogeneous projects processed by several workers at once: BOM / CRLF / LF / no-final-newline files of very different sizes, one codemod,
+    # --max-workers 4, seeded per-file delays and (H-fp) LINE-event yield injection, so that work items interleave inside the pipeline
+    mixed_cm = [("pixee:python/remove-unnecessary-f-str", "print(f'plain {0}')\n"), ("pixee:python/use-set-literal", "s_{0} = set([{0}, 2])\n"), ("pixee:python/fix-assert-tuple", "assert (1 == {0}, 'msg')\n")]
+    for q in range(4 if tier == "quick" else 40):
+        cid, tmpl = mixed_cm[q % len(mixed_cm)]; files = {}; labels = {}
+        for i in range(12):
+            text = tmpl.format(i) + "".join(f"pad_{i}_{k} = {k}\n" for k in range(rnd.choice((0, 0, 30, 300)))) + tmpl.format(i + 100)
+            lay = ("bom", "lf", "crlf", "nonl", "lf", "bom")[(i + q) % 6]
+            name = f"d{i % 3}/mix_{i:02d}.py"; files[name] = b64(gen.layout(text, lay)); labels[os.path.basename(name)] = ("mixed-project", "plain", lay)
+        jobs.append({"id": f"mixed-workers:{q}", "cid": cid, "labels": labels, "files": files, "argv": ["{proj}", "--output", "{out}", "--codemod-include", cid, "--max-workers", "4"],
+                     "monitors": {"snap": True, "delays": {"seed": seed * 1000 + q, "max_ms": 3}, "yield": {"seed": seed * 1000 + q, "p": 0.02}}})
     # the manifest is also a source file: dependency writers and libcst codemods touch the same setup.py in one run, in every order
     import itertools as _it
     trio = ["pixee:python/use-defusedxml", "pixee:python/fix-mutable-params", "pixee:python/use-set-literal"]
